@@ -226,6 +226,53 @@ def run_cross(case, res):
               f'{want[0]}:{want[1][:12]}', sub, {}, group='cross:bytes'))
 
 
+def run_repeat(case, res):
+  """The same (model, recipe) quantized several times in one process, each
+  time on a fresh Quantizer: every result equals the fresh-process bytes
+  (process-wide counters, caches keyed without model identity ...)."""
+  L = env.lib()
+  only = case.get('only')
+  star = irm.single([irm.op('FULLY_CONNECTED', 'bias', [0]),
+                     irm.op('TANH', '', [0]), irm.op('ADD', 'tc', [0]),
+                     irm.op('MUL', 'tt', [1, 2])], pool=0)
+  diamond = irm.single([irm.op('FULLY_CONNECTED', 'nobias', [0]),
+                        irm.op('FULLY_CONNECTED', 'bias', [1]),
+                        irm.op('TANH', '', [1]),
+                        irm.op('ADD', 'tt', [2, 3])], pool=0)
+  models = model_irs() + [star, diamond]
+  for mi, ir in enumerate(models):
+    b = irm.build(ir)
+    mixed = md.per_op_recipe(b, ['SRQ8a', 'SRQ16', 'SRQ8s', 'SRQ8a'][:len(b.ops[0])])
+    for ri, recipe in enumerate(RECIPES + [mixed]):
+      sub = f'repeat:m{mi}:r{ri}'
+      if only is not None and only != sub:
+        continue
+      data = [b.input_data(0, 'mix')]
+      for rep in range(3):
+        res['evals'] += 1
+        res['traces'] += 1
+        res['transitions'] += 2
+        try:
+          q = L.quantizer.Quantizer(b.model, copy.deepcopy(recipe))
+          cal = q.calibrate(copy.deepcopy(data)) if q.need_calibration else None
+          snap = copy.deepcopy(cal)
+          got = ('ok', hashlib.sha256(bytes(
+              q.quantize(cal).quantized_model)).hexdigest())
+        except Exception as ex:  # pylint: disable=broad-except
+          snap, got = None, ('exc', type(ex).__name__)
+        if got[0] == 'exc':
+          break
+        want = fresh_quantize(b.model, copy.deepcopy(recipe), snap)
+        if tuple(got) != tuple(want):
+          res['fails'].append(findings.fail(
+              PROP, 'history_dependent_result', f'[{sub}] call #{rep + 1} in '
+              f'this process {got[1][:12]}, fresh process {want[1][:12]}', sub,
+              {}, group='repeat'))
+          break
+      res['nontrivial'] += 1
+      res['hashes'].append(sub)
+
+
 # ---------------------------------------------------------------------------
 def plan(tier, seed):
   ev = events()
@@ -237,6 +284,7 @@ def plan(tier, seed):
                     'depth': max(depth, 4) if mi == 1 else depth})
   cases.append({'hashseed': True})
   cases.append({'cross': True})
+  cases.append({'repeat': True})
   return {
       'cases': cases, 'chunk': 1, 'init': worker_init,
       'budget_s': 285 if tier == 'quick' else 3400,
@@ -403,6 +451,11 @@ def run_case(case, note, skip):
     res['traces'] = res['evals']
     res['states'] = 1
     res['transitions'] = res['evals']
+    return res
+  if case.get('repeat'):
+    run_repeat(case, res)
+    res['states'] = 1
+    res['sample'] = {'repeat': 'same (model, recipe) three times in one process'}
     return res
   if case.get('cross'):
     run_cross(case, res)
